@@ -105,6 +105,21 @@ def fam_c10(R, n):
         a = '#[token(%s, priority = 3, %s)] A,' % (rust_bytes(b'ab\xff'), sp)
         b = '#[regex(%s, priority = 2)] B,' % rust_str('(?i-u:ab\\xff)')
         out.append(dict(family='c10-spelling', src=enum(['#[logos(utf8 = false)]'], [a, b]), meta=dict(lit=b'ab\xff'.hex(), icase=True, unicode=False, pair=(0, 1), token_leaf=0)))
+    # patterns whose text mentions no letter at all yet denotes letters (class ranges between punctuation end points, negated
+    # classes, the dot): the flag matters although nothing in the source looks like it could
+    for p in ['[0-_]', '[?-\\[]', '[!-~]+', '[@-Z]+', '[\\[-\\{]+', '[^0-9 ]+', '[^!]', '[0-_]+[0-9]', '([:-`]|[0-9])+', '[!-⁜]+', '[^\\x{0}-@]'.replace('x', 'x'), '[0-9]+', '[:-`]{2}', '[_-{]+;',
+              '[\\[-\\{&&[^0-9]]+', '[[:-@][_-|]]+']:
+        if any(ch.isalpha() for ch in p):
+            continue
+        a = '#[regex(%s, priority = 3, ignore(case))] A,' % rust_str(p)
+        b = '#[regex(%s, priority = 2)] B,' % rust_str('(?i:%s)' % p)
+        out.append(dict(family='c10-letterless', src=enum([], [a, b]), meta=dict(pattern=p.encode('utf-8').hex(), icase=True, unicode=True, pair=(0, 1))))
+        s_ = '#[logos(skip(%s, priority = 3, ignore(case)))]' % rust_str(p)
+        out.append(dict(family='c10-letterless', src=enum([s_], [b]), meta=dict(pattern=p.encode('utf-8').hex(), icase=True, unicode=True, pair=(0, 1))))
+        if all(ord(ch) < 128 for ch in p):
+            a = '#[regex(%s, priority = 3, ignore(case))] A,' % rust_bytes(p.encode('ascii'))
+            b2 = '#[regex(%s, priority = 2)] B,' % rust_str('(?i-u:%s)' % p)
+            out.append(dict(family='c10-letterless', src=enum(['#[logos(utf8 = false)]'], [a, b2]), meta=dict(pattern=p.encode('utf-8').hex(), icase=True, unicode=False, pair=(0, 1))))
     # patterns with look-around assertions: ignore(case) must not touch the assertion
     for p in ['ab$', 'k(?-u:\\b)', 'a(?m:$)\\n?', 'sk(?-u:\\B)x', 'ask(?-u:\\b{end})', 'é(?mR:$)']:
         a = '#[regex(%s, priority = 3, ignore(case))] A,' % rust_str(p)
@@ -679,7 +694,13 @@ FIELD_ATTRS = ['#[allow(unused)]', '#[cfg(test)]', '#[grammar::token]', '#[x::re
 def fam_c17(R, n):
     out = []
     fixed = ['#[derive(Debug, logos::Logos, Clone)]', '#[derive(Logos)]', '#[derive(::logos::Logos, Debug,)]', '#[derive(Debug)]\n#[derive(Logos, Clone)]',
-             '#[derive(Debug, Logos, )]', '#[derive(serde::Serialize, Logos, serde::Deserialize)]']
+             '#[derive(Debug, Logos, )]', '#[derive(serde::Serialize, Logos, serde::Deserialize)]',
+             # a comma directly followed by `::` (the comma token then has `Joint` spacing)
+             '#[derive(Debug,::logos::Logos)]', '#[derive(::logos::Logos,::core::fmt::Debug)]', '#[derive(Debug,::logos::Logos,Clone)]',
+             '#[derive(Clone,::core::fmt::Debug,Logos)]', '#[derive(Logos,::core::clone::Clone ,::core::fmt::Debug)]']
+    SEPS = [', ', ', ', ',', ' ,', ' , ', ',\n    ']
+    def join(ds):
+        return ''.join(d + (R.choice(SEPS) if k_ + 1 < len(ds) else '') for k_, d in enumerate(ds))
     for i in range(n):
         if i < len(fixed):
             dl = [fixed[i]]
@@ -690,9 +711,9 @@ def fam_c17(R, n):
                 ds.insert(R.randrange(len(ds) + 1), R.choice(['Logos', 'logos::Logos']))
             if R.random() < 0.3:
                 cut = R.randrange(1, len(ds)) if len(ds) > 1 else 1
-                dl = ['#[derive(%s)]' % ', '.join(ds[:cut]), '#[derive(%s)]' % ', '.join(ds[cut:])] if ds[cut:] else ['#[derive(%s)]' % ', '.join(ds)]
+                dl = ['#[derive(%s)]' % join(ds[:cut]), '#[derive(%s)]' % join(ds[cut:])] if ds[cut:] else ['#[derive(%s)]' % join(ds)]
             else:
-                dl = ['#[derive(%s%s)]' % (', '.join(ds), ',' if R.random() < 0.2 else '')]
+                dl = ['#[derive(%s%s)]' % (join(ds), ',' if R.random() < 0.2 else '')]
         attrs = dl + R.sample(ENUM_ATTRS, R.choice([0, 1, 2, 3]))
         R.shuffle(attrs)
         vs = []
